@@ -70,6 +70,7 @@ type c05Driver struct {
 	vname    func(v int) string
 	name     string
 	prelude  func() // sequential calls that put the process into a non-initial state
+	vprelude func(v int) func()
 	threads  [][]c05Call
 	what     string
 }
@@ -163,6 +164,14 @@ func c05Drivers() []c05Driver {
 			build: func(v int) [][]c05Call {
 				e := c05PairEntries[v]
 				return [][]c05Call{{{e.name + "(A)", func() string { return e.run(0) }}}, {{e.name + "(B)", func() string { return e.run(1) }}}}
+			}},
+		{name: "H9-after-each-single-call",
+			what:     "for every operation of the history alphabet of C04 (every entry point on good, cut, unsupported and unrecognised inputs, hashes, wrong-size images): that one call made sequentially, then Decode(TIFF) || Decode(JPEG): whatever the call left in the pools (objects returned once, twice or never) must not let two concurrent decodes share an object",
+			variants: len(c04Ops()) - 4,
+			vname:    func(v int) string { return c04Ops()[v].name },
+			vprelude: func(v int) func() { return func() { vsync.Chooser = nil; c04Ops()[v].run() } },
+			build: func(v int) [][]c05Call {
+				return [][]c05Call{one(decodeCall("tiff-rich-II", by["tiff-rich-II"], 1200)), one(decodeCall("jpeg-rich-II", by["jpeg-rich-II"], 1200))}
 			}},
 		{name: "H6-error-paths",
 			what: "a decode that fails half-way (early returns and their deferred Puts) || a successful decode || a truncated CR3",
@@ -274,6 +283,9 @@ func c05Harness(di int) mc.Harness {
 			dv := *d0
 			dv.name = d0.name + "/" + d0.vname(v)
 			dv.threads = d0.build(v)
+			if d0.vprelude != nil {
+				dv.prelude = d0.vprelude(v)
+			}
 			d = &dv
 		}
 		golden := c05GoldenFor(d)
